@@ -134,7 +134,7 @@ func (c15) Generate(r *core.Rng, run int, tier string) *core.History {
 		h.Events = append(h.Events, core.Event{Ev: "stmt", Text: spread(r, t)})
 		if flags.Comments && r.Bool(.2) {
 			// a block comment as a statement of its own, possibly spanning lines (cuts inside it must ask for more)
-			h.Events = append(h.Events, core.Event{Ev: "stmt", Text: core.Pick(r, []string{"/* block comment */", "/* spans\n   two lines */", "/* a { [ ( \" unbalanced */"})})
+			h.Events = append(h.Events, core.Event{Ev: "stmt", Text: core.Pick(r, []string{"/* block comment */", "/* spans\n   two lines */", "/* a { [ ( \" unbalanced */", "/*/ odd opener\n   second line */", "/*/\nprintln(\"hidden\")\n*/"})})
 		}
 	}
 	h.Cfg["splitseed"] = int64(r.Uint64() >> 1)
